@@ -8,6 +8,9 @@
  * EXPECT-FAIL: TAB6 utf16_literal_to_utf8
  * EXPECT-FAIL: TAB7 parse_number
  * EXPECT-FAIL: TAB21 parse_hex4
+ * EXPECT-FAIL: TAB23 bad_TAB23_scan_single
+ * EXPECT-FAIL: TAB23 bad_TAB23_search_single
+ * EXPECT-FAIL: TAB23 bad_TAB23_search_inverted
  * EXPECT-FAIL: C02S parse_array
  * EXPECT-FAIL: C03S parse_array
  * EXPECT-FAIL: C02S parse_object
@@ -15,6 +18,7 @@
  */
 #include "cJSON.h"
 #include <string.h>
+#include <stddef.h>
 #include <stdlib.h>
 #include <limits.h>
 #define true ((cJSON_bool)1)
@@ -139,6 +143,103 @@ static cJSON_bool parse_string(cJSON * const item, parse_buffer * const input_bu
     return true;
 fail:
     return false;
+}
+/* TAB23: where the literal ends. The scan and the copying loop behind it stand for parse_string's two passes. */
+#define SCAN_TAIL \
+    out = (unsigned char*)input_buffer->hooks.allocate((size_t)(input_end - input_pointer) + 1); \
+    if (out == NULL) { return false; } \
+    item->valuestring = (char*)out; \
+    while (input_pointer < input_end) { *out++ = *input_pointer++; } \
+    *out = '\0'; \
+    return true;
+/* a backslash is stepped over alone: the quote of \" ends the literal */
+static cJSON_bool bad_TAB23_scan_single(cJSON * const item, parse_buffer * const input_buffer)
+{
+    const unsigned char *input_pointer = buffer_at_offset(input_buffer) + 1;
+    const unsigned char *input_end = buffer_at_offset(input_buffer) + 1;
+    unsigned char *out = NULL;
+    while (((size_t)(input_end - input_buffer->content) < input_buffer->length) && (*input_end != '\"'))
+    {
+        input_end++;
+    }
+    if (((size_t)(input_end - input_buffer->content) >= input_buffer->length) || (*input_end != '\"')) { return false; }
+    SCAN_TAIL
+}
+static cJSON_bool good_scan_forward(cJSON * const item, parse_buffer * const input_buffer)
+{
+    const unsigned char *input_pointer = buffer_at_offset(input_buffer) + 1;
+    const unsigned char *input_end = buffer_at_offset(input_buffer) + 1;
+    unsigned char *out = NULL;
+    while (((size_t)(input_end - input_buffer->content) < input_buffer->length) && (*input_end != '\"'))
+    {
+        if (input_end[0] == '\\')
+        {
+            if ((size_t)(input_end + 1 - input_buffer->content) >= input_buffer->length) { return false; }
+            input_end++;
+        }
+        input_end++;
+    }
+    if (((size_t)(input_end - input_buffer->content) >= input_buffer->length) || (*input_end != '\"')) { return false; }
+    SCAN_TAIL
+}
+/* the quote is looked for with memchr and taken for escaped when one backslash precedes it: wrong behind \\ */
+static cJSON_bool bad_TAB23_search_single(cJSON * const item, parse_buffer * const input_buffer)
+{
+    const unsigned char *input_pointer = buffer_at_offset(input_buffer) + 1;
+    const unsigned char *input_end = buffer_at_offset(input_buffer) + 1;
+    const unsigned char * const buffer_end = input_buffer->content + input_buffer->length;
+    unsigned char *out = NULL;
+    for (;;)
+    {
+        if (input_end >= buffer_end) { return false; }
+        input_end = (const unsigned char*)memchr(input_end, '\"', (size_t)(buffer_end - input_end));
+        if (input_end == NULL) { return false; }
+        if (input_end[-1] != '\\') { break; }
+        input_end++;
+    }
+    SCAN_TAIL
+}
+static cJSON_bool good_search_parity(cJSON * const item, parse_buffer * const input_buffer)
+{
+    const unsigned char *input_pointer = buffer_at_offset(input_buffer) + 1;
+    const unsigned char *input_end = buffer_at_offset(input_buffer) + 1;
+    const unsigned char * const buffer_end = input_buffer->content + input_buffer->length;
+    unsigned char *out = NULL;
+    for (;;)
+    {
+        const unsigned char *run = NULL;
+        if (input_end >= buffer_end) { return false; }
+        input_end = (const unsigned char*)memchr(input_end, '\"', (size_t)(buffer_end - input_end));
+        if (input_end == NULL) { return false; }
+        run = input_end;
+        while ((run > input_pointer) && (run[-1] == '\\')) { run--; }
+        if (((size_t)(input_end - run) % 2) == 0) { break; }
+        input_end++;
+    }
+    SCAN_TAIL
+}
+/* the run is counted, but an odd run ends the search */
+static cJSON_bool bad_TAB23_search_inverted(cJSON * const item, parse_buffer * const input_buffer)
+{
+    const unsigned char *input_pointer = buffer_at_offset(input_buffer) + 1;
+    const unsigned char *input_end = buffer_at_offset(input_buffer) + 1;
+    const unsigned char * const buffer_end = input_buffer->content + input_buffer->length;
+    unsigned char *out = NULL;
+    for (;;)
+    {
+        size_t run = 0;
+        if (input_end >= buffer_end) { return false; }
+        input_end = (const unsigned char*)memchr(input_end, '\"', (size_t)(buffer_end - input_end));
+        if (input_end == NULL) { return false; }
+        while (((input_end - run) > input_pointer) && (input_end[-1 - (ptrdiff_t)run] == '\\')) { run++; }
+        if ((run & 1) != 0) { break; }
+        input_end++;
+    }
+    SCAN_TAIL
+}
+cJSON_bool use_scans(cJSON *item, parse_buffer *b)
+{
+    return bad_TAB23_scan_single(item, b) + good_scan_forward(item, b) + bad_TAB23_search_single(item, b) + good_search_parity(item, b) + bad_TAB23_search_inverted(item, b);
 }
 /* C02S: new element linked in front; C03S: closer not demanded */
 static cJSON_bool parse_array(cJSON * const item, parse_buffer * const input_buffer)
